@@ -100,7 +100,8 @@ theorem aliasMangle_eq (tags : List String) (h : Hdr) (t : Ty) :
       else .ok [({ h with tags := delFold (aliasFound tags h) h.tags }, t),
         ({ h with name := h.name ++ aliasFieldSuffix,
                   tags := tagSet (aliasTags tags (aliasFound tags h) h.tags) "dialsdesc"
-                    (aliasDesc tags (aliasFound tags h) h) }, t)] := rfl
+                    (aliasDesc tags (aliasFound tags h) h),
+                  anon := false }, t)] := rfl
 
 theorem mem_aliasFound {tags : List String} {h : Hdr} {p : String × String} :
     p ∈ aliasFound tags h ↔ p.1 ∈ tags ∧ tagGet h.tags (p.1 ++ "alias") = some p.2 := by
